@@ -352,7 +352,7 @@ def r4(ctx):
                          f"the counter bits placed into the address are {ranges}: they do not tile [0, n) contiguously, so two different counter values (names) map to the same address")
     rv = ctx.body(R, "turmoil::dns::Dns::reverse")
     if rv:
-        ok = any(_on_field(rv, t["args"][0], NAMES) for bb, t in rv.calls(re.compile(r"^indexmap::IndexMap::iter$")))
+        ok = any(t["args"] and _on_field(rv, t["args"][0], NAMES) for bb, t in rv.calls(re.compile(r"^indexmap::IndexMap::iter$|IntoIterator>::into_iter$|^std::iter::IntoIterator::into_iter$")))
         ctx.inst(R, "reverse:same-map", ok, rv.span, "reverse lookup scans Dns::names" if ok else "reverse lookup does not read Dns::names")
     ctx.floor(R, 5)
 
